@@ -72,6 +72,7 @@ def outputs(p, X, timed, light=False):
         else:
             outs[name] = o[1]
     put("mean", lambda: p(X))
+    put("mean_normalized", lambda: p(X, normalize=True))
     if light:
         put("covarianceTrue", lambda: p.covariance(X, diag=True))
         put("mean_covarianceFalse", lambda: p.mean_covariance(X, diag=False))
@@ -133,7 +134,8 @@ def run(ctx):
     # ---- predictors of the nine classes
     n = 16
     X = nrng.normal(size=(n, 2))
-    t = np.repeat([0.0, 1.0], n // 2)
+    # three time points of unequal sizes: the time predictors' n_obs (average cells per time point) is fractional (16/3)
+    t = np.repeat([0.0, 1.0, 2.5], [5, 4, 7])
     Xt = np.concatenate([X, t[:, None]], axis=1)
     from mellon.cov import Matern52, ExpQuad
     kern = Matern52(1.2, active_dims=slice(None, None)) * 1.5 + ExpQuad(2.0, active_dims=[0, 1]) ** 2
